@@ -346,13 +346,16 @@ def cmd_campaign(mod, tier, seed):
 
     # 1. witnesses of known findings / fixed regressions (plain replays, no generator)
     known_report = []
+    _witness_cache = {}
     for k in known:
         w = VERIF / k["witness"]
         if not w.exists():
             harness_errors.append(f"witness missing: {k['witness']}")
             continue
         try:
-            data, res = replay_file(mod, w)
+            if str(w) not in _witness_cache:
+                _witness_cache[str(w)] = replay_file(mod, w)
+            data, res = _witness_cache[str(w)]
         except HarnessError as e:
             harness_errors.append(f"witness {k['witness']}: {e}")
             continue
